@@ -74,6 +74,60 @@ class Built:
     pass
 
 
+class ByteWbMem(LiteXModule):
+    """A byte-addressed Wishbone slave with its own RAM (what a user core with `addressing="byte"` looks like):
+    cell = adr[log2(dw/8):], one-cycle ack, byte write enables from `sel`."""
+    autocsr_exclude = {"mem"}
+
+    def __init__(self, size, dw, aw, init):
+        from migen import If
+        self.bus = bus = wishbone.Interface(data_width=dw, address_width=aw, addressing="byte")
+        self.mem = Memory(dw, size // (dw // 8), init=init)
+        port = self.mem.get_port(write_capable=True, we_granularity=8)
+        self.specials += self.mem, port
+        sh = (dw // 8).bit_length() - 1
+        self.comb += [port.adr.eq(bus.adr[sh:sh + len(port.adr)]), port.dat_w.eq(bus.dat_w), bus.dat_r.eq(port.dat_r)]
+        self.comb += [port.we[i].eq(bus.cyc & bus.stb & bus.we & bus.sel[i] & ~bus.ack) for i in range(dw // 8)]
+        self.sync += [bus.ack.eq(0), If(bus.cyc & bus.stb & ~bus.ack, bus.ack.eq(1))]
+
+
+class AxiMem(LiteXModule):
+    """An AXI4 slave with its own RAM: the repository's AXI2AXILite in front of its AXILiteSRAM."""
+    autocsr_exclude = {"mem"}
+
+    def __init__(self, size, dw, aw, init):
+        self.bus = axi.AXIInterface(data_width=dw, address_width=aw, id_width=1)
+        lite = axi.AXILiteInterface(data_width=dw, address_width=aw)
+        self.conv = axi.AXI2AXILite(self.bus, lite)
+        self.ram = axi.AXILiteSRAM(size, init=init, bus=lite)
+        self.mem = self.ram.mem
+
+
+def uslave_init(u, dws):
+    """Distinct content for every 32-bit word of the slave's RAM (aliasing / shifted windows show at the first load)."""
+    n32 = u["size"] // 4
+    salt = u.get("salt", 0x5a5a)
+    w32 = [((((salt + 7 * k) & 0xffff) << 16) | (k & 0xffff)) for k in range(n32)]
+    per = dws // 32
+    return [sum(w32[c * per + l] << (32 * l) for l in range(per)) for c in range(n32 // per)], w32
+
+
+def make_uslave(u, bus_dw, aw):
+    """-> (module, bus interface, Memory, data width) of a user slave described by `u` (std, addressing, dw, size)."""
+    dws = u.get("dw") or bus_dw
+    init, _ = uslave_init(u, dws)
+    std = u["std"]
+    if std == "wishbone" and u.get("addressing", "word") == "word":
+        mod = wishbone.SRAM(u["size"], init=init, bus=wishbone.Interface(data_width=dws, address_width=aw, addressing="word"))
+    elif std == "wishbone":
+        mod = ByteWbMem(u["size"], dws, aw, init)
+    elif std == "axi-lite":
+        mod = axi.AXILiteSRAM(u["size"], init=init, bus=axi.AXILiteInterface(data_width=dws, address_width=aw))
+    else:
+        mod = AxiMem(u["size"], dws, aw, init)
+    return mod, mod.bus, mod.mem, dws
+
+
 def build(cfg, tmpdir=None):
     """Elaborate the SoC described by cfg.  Raises SoCError (build refused) like the real flow would."""
     import io, contextlib
@@ -122,17 +176,27 @@ def _build(cfg, tmpdir=None):
         else:
             soc.add_ram(r["name"], origin=r["origin"], size=r["size"], contents=contents, mode=r.get("mode", "rwx"))
         b.rams[r["name"]] = getattr(soc, r["name"])
-    # the extra master that plays the CPU
+    # user slaves of any standard / addressing / data width behind `SoCBusHandler.add_slave` (mixed-standard compositions)
     aw = cfg.get("bus_aw", 32)
-    if bus_std == "wishbone":
-        m = wishbone.Interface(data_width=bus_dw, address_width=aw, addressing="word")
-    elif bus_std == "axi-lite":
+    b.uslaves = {}
+    for u in cfg.get("uslaves", []):
+        mod, itf, mem, dws = make_uslave(u, bus_dw, aw)
+        setattr(soc, u["name"], mod)
+        soc.bus.add_slave(u["name"], itf, SoCRegion(origin=u["origin"], size=u["size"], mode=u.get("mode", "rw")))
+        b.uslaves[u["name"]] = (mod, itf, mem, dws)
+    # the extra master that plays the CPU (its standard / addressing may differ from the SoC bus: `add_adapter` m2s)
+    mc = cfg.get("master") or {}
+    mstd = mc.get("std", bus_std)
+    b.master_std = mstd
+    if mstd == "wishbone":
+        m = wishbone.Interface(data_width=bus_dw, address_width=aw, addressing=mc.get("addressing", "word"))
+    elif mstd == "axi-lite":
         m = axi.AXILiteInterface(data_width=bus_dw, address_width=aw)
     else:
         m = axi.AXIInterface(data_width=bus_dw, address_width=aw, id_width=1)
     soc.bus.add_master(name="tb", master=m)
     if cfg.get("second_master"):
-        m2 = type(m)(data_width=bus_dw, address_width=aw) if bus_std != "wishbone" else \
+        m2 = type(m)(data_width=bus_dw, address_width=aw) if mstd != "wishbone" else \
             wishbone.Interface(data_width=bus_dw, address_width=aw, addressing="word")
         soc.bus.add_master(name="tb2", master=m2)
         b.master2 = m2
@@ -359,7 +423,7 @@ class Tb:
     def __init__(self, b):
         self.b = b
         soc = b.soc
-        self.std, self.dw = b.cfg["bus"], b.cfg["bus_dw"]
+        self.std, self.dw = getattr(b, "master_std", b.cfg["bus"]), b.cfg["bus_dw"]
         self.nl = Netlist(soc)
         self.m = b.master
         # every simple CSR of every bank, keyed by object identity
@@ -445,7 +509,7 @@ class Tb:
         nl, m = self.nl, self.m
         val = None
         if self.std == "wishbone":
-            shift = (self.dw // 8).bit_length() - 1
+            shift = (self.dw // 8).bit_length() - 1 if m.addressing == "word" else 0
             nl.set(m.adr, addr >> shift)
             nl.set(m.we, we)
             nl.set(m.dat_w, (dat & M32) << (32 * lane))
@@ -1306,6 +1370,96 @@ def check_soc(cfg, seed=0, max_regs=None, max_words=None):
                 if got != v or val2 != v:
                     alarm("RAM %s @+0x%x: wrote 0x%x, memory holds %r, load returns %r" % (rc["name"], off, v, got, val2))
             count("ram_accesses", 4)
+    # ---- memory-backed slaves: the WHOLE published window (user slaves of any standard / addressing / data width behind
+    #      `bus.add_slave`, and the add_ram/add_rom memories): init content at its published address, every store changes
+    #      exactly the cell (and 32-bit lane) the published address denotes, every word is its own storage -------------
+    full_walk = max_words is None
+
+    def walk_window(name, kind, base, size, mem, dwm, writable, w32_init, budget):
+        n32, per, depth = size // 4, dwm // 32, mem.depth
+        if full_walk or n32 <= budget:
+            ks = set(range(n32))
+        else:
+            ks = {0, 1, 2, 3, 4, 5, n32 - 1, n32 - 2} | {q * n32 // 4 + d for q in (1, 2, 3) for d in (-1, 0, 1)}
+            ks |= {1 << i for i in range(n32.bit_length())} | {(1 << i) - 1 for i in range(n32.bit_length() + 1)}
+            ks |= {4 * k for k in (1, 2, 3, 5)} | {8 * k for k in (1, 3)}
+            while len(ks) < budget:
+                ks.add(rng.randrange(n32))
+        ks = sorted(k for k in ks if 0 <= k < n32)
+        bad = [0]
+
+        def walarm(text):
+            bad[0] += 1
+            if bad[0] <= 3:
+                alarm(text)
+        cells = lambda: [tb.mem_word(mem, c) for c in range(depth)]
+        where = "%s slave %s (%d x %d bit) on the %s %d-bit SoC bus, master %s" % (
+            kind, name, depth, dwm, cfg["bus"], cfg["bus_dw"], getattr(b, "master_std", cfg["bus"]))
+        if depth * dwm // 8 != size:
+            walarm("%s: the published size 0x%x is not the size of the memory (0x%x bytes)" % (where, size, depth * dwm // 8))
+            return
+        if w32_init is not None:
+            for k in ks:
+                val, hits = do_access(base + 4 * k, 0)
+                if hits is None or val != w32_init[k]:
+                    walarm("%s: word %d of the published window (@0x%x) reads %s, the slave's cell %d lane %d was initialised with 0x%08x" % (
+                        where, k, base + 4 * k, "nothing (bus hangs)" if hits is None or val is None else "0x%08x" % val, k // per, k % per, w32_init[k]))
+                elif sorted(hits["s"]) != [name]:
+                    walarm("%s: load @0x%x addresses slaves %s" % (where, base + 4 * k, sorted(hits["s"])))
+                count("window_loads")
+        if not writable:
+            return
+        written = {}
+        for k in ks:
+            cell, lane = k // per, k % per
+            before = cells()
+            v = ((((0xa500 + 13 * k) & 0xffff) << 16) | (~k & 0xffff)) & M32
+            if (before[cell] >> (32 * lane)) & M32 == v:
+                v ^= 0x10000
+            val, hits = do_access(base + 4 * k, 1, v)
+            if hits is None:
+                walarm("%s: store @0x%x hangs the bus" % (where, base + 4 * k))
+                continue
+            after = cells()
+            changed = [c for c in range(depth) if after[c] != before[c]]
+            want = (before[cell] & ~(M32 << (32 * lane))) | (v << (32 * lane))
+            if changed != [cell] or after[cell] != want:
+                walarm("%s: store of 0x%08x to published address 0x%x (word %d of the window) must change exactly cell %d lane %d; "
+                       "cells changed: %s" % (where, v, base + 4 * k, k, cell, lane,
+                                              ["%d: 0x%x -> 0x%x" % (c, before[c], after[c]) for c in changed[:4]] or "none"))
+            if len(changed) == 1:
+                diff = before[changed[0]] ^ after[changed[0]]
+                lanes = [l for l in range(per) if (diff >> (32 * l)) & M32]
+                if len(lanes) == 1:
+                    rec["lean"].append(("slavecell %s %d %d %d %d %d" % (kind, cfg["bus"] != "wishbone", dwm, cfg["bus_dw"], depth, base + 4 * k),
+                                        "%d %d" % (changed[0], lanes[0])))
+            written[k] = v
+            count("window_stores")
+        for k in ks:
+            if k not in written:
+                continue
+            val, hits = do_access(base + 4 * k, 0)
+            if hits is None or val != written[k]:
+                walarm("%s: word %d of the published window (@0x%x) lost its value: reads %r, 0x%08x was written (window aliases)" % (
+                    where, k, base + 4 * k, val, written[k]))
+            count("window_loads")
+
+    for u in cfg.get("uslaves", []):
+        mod, itf, mem, dws = b.uslaves[u["name"]]
+        pubm = ex.mem_header.get(u["name"].upper())
+        if pubm != (u["origin"], u["size"]) or pub.get(u["name"]) != (u["origin"], u["size"]):
+            alarm("user slave %s asked at 0x%x size 0x%x is published as mem.h %r json %r" % (u["name"], u["origin"], u["size"], pubm, pub.get(u["name"])))
+            continue
+        kind = {"wishbone": "wbword" if u.get("addressing", "word") == "word" else "wbbyte", "axi-lite": "axil", "axi": "axil"}[u["std"]]
+        walk_window(u["name"], kind, pubm[0], pubm[1], mem, dws, "w" in u.get("mode", "rw"), uslave_init(u, dws)[1], u.get("budget", 40))
+        count("user_slaves")
+        count("uslave.%s_on_%s" % (u["std"] + ("-" + u.get("addressing", "word") if u["std"] == "wishbone" else ""), cfg["bus"]))
+    for rc in cfg.get("rams", []):
+        if rc["name"] not in ex.mem_header:
+            pass
+        base, psize = ex.mem_header[rc["name"].upper()]
+        walk_window(rc["name"], "wbword" if cfg["bus"] == "wishbone" else "axil", base, psize, b.rams[rc["name"]].mem, cfg["bus_dw"],
+                    "w" in rc.get("mode", "rwx"), None, 12)
     st["cycles"] = tb.cycles
     return rec
 
